@@ -386,13 +386,16 @@ def exec_group(case):
         import copy
 
         qtype = copy.deepcopy(qtype)  # an equal copy of the qtype object (see exec_weight)
+    qarg = qtype
+    if case.get("inf", case.get("cin", 0)) % 3 == 2:
+        qarg = case["qtype"]  # the qtype given by NAME (a supported spelling): the same configuration
     if case["kind"] == "linear":
         inf = case["inf"]
-        m = cut(lambda: QLinear(inf, 3, bias=False, device="meta", weights=qtype))
+        m = cut(lambda: QLinear(inf, 3, bias=False, device="meta", weights=qarg))
         per = inf
     else:
         cin, groups, kh, kw = case["cin"], case["groups"], case["kh"], case["kw"]
-        m = cut(lambda: QConv2d(cin, groups * 2, (kh, kw), groups=groups, bias=False, device="meta", weights=qtype))
+        m = cut(lambda: QConv2d(cin, groups * 2, (kh, kw), groups=groups, bias=False, device="meta", weights=qarg))
         per = cin // groups * kh * kw
     out.fingerprint = [case[k] for k in sorted(case)]
     out.nontrivial = not (case["kind"] == "linear" and case.get("inf") in (8, 16, 32, 64, 128, 256))
